@@ -323,7 +323,8 @@ def fold_function(fi):
     params = {x.arg for x in a_.posonlyargs + a_.args + a_.kwonlyargs}
     missing = {p for p in pinned if p not in present and p not in params and p not in getattr(fn, "_normalised_away", ())}
     import re as _re
-    gained = {p for p in present if p not in pinned and not _re.search(r"__u?\d+$", p)}          # names made by the normal forms are not the author's
+    # names made by the normal forms (x__u0, x__u1, t__0 ..) stand for the author's one name x / t
+    gained = {_re.sub(r"__u?\d+$", "", p) for p in present if p not in pinned} - pinned
     # a renamed local that a normal form took apart (data_v -> data_v__0 ..) still counts as the renamed one
     gained |= {p for p in getattr(fn, "_normalised_away", ()) if p not in pinned}
     missing -= {p for p in missing if p in getattr(fn, "_normalised_away", ())}
